@@ -62,7 +62,9 @@ def record(ctx, fails, mode, extra):
         if f["sig"].count(":accepted:") and len(f.get("rules") or []) == 1:
             single.add((f["sig"].split(":")[1], f["rules"][0]))
     implied = 0
-    for f in sorted(fails, key=lambda f: (len(f.get("rules") or []), f["sig"], f.get("raw") or "", f.get("inst") or 0)):
+    # the representative written to the replay file: fewest broken rules, canonical DER first, then by line text
+    for f in sorted(fails, key=lambda f: (len(f.get("rules") or []), f["sig"], '"der":"strict"' not in (f.get("raw") or ""),
+                                          f.get("raw") or "", f.get("inst") or 0)):
         rules = f.get("rules") or []
         tab = f["sig"].split(":")[1]
         if ":accepted:" in f["sig"] and len(rules) > 1 and all((tab, r) in single for r in rules):
